@@ -149,11 +149,17 @@ TabClauses(e) ==
     involution |-> e.t \in Relational => (Involution(e.v) /\ NoFixpoint(e.v))
   ]
 
-Clauses(i) == IF Rec[i].k = "tab" THEN TabClauses(Rec[i]) ELSE [kind |-> FALSE]
+NM == INSTANCE Names
+(* the printed name of the day foetus spirit of pillar p: place (stem part + branch part with the traditional
+   contractions), inside / outside, direction — composed by Names.tla from this module's side and direction tables *)
+FetusNameClauses(e) ==
+  [ name |-> e.p \in 0..59 /\ e.n = NM!FetusDayName(FetusStem(PStem(e.p)), FetusBranch(PBranch(e.p)), FetusSide(e.p), FetusDirection(e.p)) ]
+
+Clauses(i) == IF Rec[i].k = "tab" THEN TabClauses(Rec[i]) ELSE IF Rec[i].k = "fdn" THEN FetusNameClauses(Rec[i]) ELSE [kind |-> FALSE]
 Failed(i) == LET c == Clauses(i) IN {n \in DOMAIN c : ~c[n]}
 (* w: 0 = cold process, 1 / 2 = fresh process in which every name of every cycle was first looked up in every named
    type (forward / reverse order): the tables must be the same — a lookup leaves no trace in later answers *)
-Key(i) == LET e == Rec[i] IN [k |-> "tab", t |-> e.t, w |-> e.w, at |-> IF e.t \in KnownTables THEN FirstDiff(e.v, Want(e.t)) ELSE -3]
+Key(i) == LET e == Rec[i] IN IF e.k = "fdn" THEN [k |-> "fdn", p |-> e.p, w |-> e.w] ELSE [k |-> "tab", t |-> e.t, w |-> e.w, at |-> IF e.t \in KnownTables THEN FirstDiff(e.v, Want(e.t)) ELSE -3]
 Nontrivial(i) == TRUE
 
 INSTANCE TraceRun WITH Prop <- "C19", NLines <- NRec
